@@ -31,6 +31,10 @@ impl Drop for ImplGuard {
     }
 }
 
+thread_local! {
+    static RT_SOURCE: RefCell<Option<String>> = const { RefCell::new(None) };
+}
+
 pub fn install_panic_hook() {
     std::panic::set_hook(Box::new(|info| {
         let msg = if let Some(s) = info.payload().downcast_ref::<&str>() {
@@ -346,6 +350,8 @@ pub struct RunRec {
     pub output: String,
     /// labels of lexical / syntactic diagnostics (for C11)
     pub diag_labels: Vec<Vec<(usize, usize)>>,
+    /// the text of the source the runtime diagnostic is attached to (the failing file: a module's errors carry the module's text)
+    pub rt_source: Option<String>,
 }
 
 impl RunRec {
@@ -418,6 +424,7 @@ pub fn run_impl(src: &str, file_path: &str, fuel: u64, max_depth: u32) -> RunRec
                     let msg = e.message.clone();
                     // the diagnostic must render (C08 / C11)
                     let named = e.named_source.clone();
+                    RT_SOURCE.with(|r| *r.borrow_mut() = Some(named.inner().to_string()));
                     let rep = Report::from(e).with_source_code(named);
                     let _ = format!("{:?}", rep);
                     (End::Rt(span.0, span.1, msg), out, vec![])
@@ -428,7 +435,8 @@ pub fn run_impl(src: &str, file_path: &str, fuel: u64, max_depth: u32) -> RunRec
     match r {
         Ok((end, output, labels)) => {
             diag_labels = labels;
-            RunRec { end, output, diag_labels }
+            let rt_source = RT_SOURCE.with(|r| r.borrow_mut().take());
+            RunRec { end, output, diag_labels, rt_source }
         }
         Err(_) => {
             let out = aplang_lib::verif::sink_take().unwrap_or_default();
@@ -436,9 +444,9 @@ pub fn run_impl(src: &str, file_path: &str, fuel: u64, max_depth: u32) -> RunRec
             let msg = take_panic_msg();
             let _ = write!(&mut String::new(), "");
             if msg.contains(WALL) {
-                RunRec { end: End::Terminate, output: out, diag_labels }
+                RunRec { end: End::Terminate, output: out, diag_labels, rt_source: None }
             } else {
-                RunRec { end: End::Panic(msg), output: out, diag_labels }
+                RunRec { end: End::Panic(msg), output: out, diag_labels, rt_source: None }
             }
         }
     }
@@ -464,7 +472,7 @@ pub fn parse_model_run(reply: &str) -> Option<(RunRec, String)> {
     };
     // a self-containing list is outside every property's quantifier: treat like an unfinished run
     let end = if cyclic { End::Fuel } else { end };
-    Some((RunRec { end, output: crate::util::unhex_str(out), diag_labels: vec![] }, fs))
+    Some((RunRec { end, output: crate::util::unhex_str(out), diag_labels: vec![], rt_source: None }, fs))
 }
 
 /// do the two runs agree on everything that is compared?
